@@ -46,7 +46,8 @@
 //!   -> one code per operation (poll: 0 1 3 4 7 as above; call, clone: 0 done, 8 refused (handle unknown or
 //!      not polled ready); gate: 3 Pending, 0 Ready, 1 error; others 0), one outcome code per issued
 //!      request (as in mode 1; every held call is released at the end of the script), log, [violations]
-//! mode 0: [0; n; layer ids; inner kind (0 direct, 1 Buffer, 2 ConcurrencyLimit(2)); nreq; (req; okind; oval)*]
+//! mode 0: [0; n; layer ids; inner kind (0 direct, 1 Buffer(4), 2 ConcurrencyLimit(2), 3 ConcurrencyLimit(1)); nreq;
+//!      (req; okind; oval)*]
 //!   -> per request [inner calls; request seen; 0 Ok / 1 inner error wrapped in pass-through variants
 //!      only / 2 anything else; payload]
 //! mode 2: [2; layer id; nlisteners; panic mask; nreq; okind*]
@@ -1100,6 +1101,8 @@ fn run_transparent(s: &[i128], with_listeners: bool) -> Vec<i128> {
                 }
             })),
             2 => bx(tower::limit::ConcurrencyLimit::new(scripted, 2)),
+            // a single unit of capacity: whoever holds a reservation it does not use blocks everybody else
+            3 => bx(tower::limit::ConcurrencyLimit::new(scripted, 1)),
             _ => bx(scripted),
         };
         let cfg = Cfg::new(if with_listeners { 4 } else { 0 }, 0);
